@@ -4,6 +4,7 @@ from __future__ import annotations
 
 import onnxscript.ir as ir
 from onnxscript.rewriter import _fusion_utils, _ir_utils, pattern
+from onnxscript.rewriter._pattern_ir import Constant
 
 """
 RMS Normalization: ONNX Opset 23 op
@@ -36,7 +37,8 @@ class RmsNormFusion(pattern.RewriteRuleClassBase):
 
     def pattern(self, op, x, scale, epsilon, compute_dtype, target_dtype):
         x = pattern.OrValue([op.Cast(x, to=compute_dtype), x])
-        x_square = op.Pow(x, 2.0)
+        # the exponent must be exactly 2: Pow(x, 2.00001) is NaN for negative x
+        x_square = op.Pow(x, Constant(2.0, rel_tol=0.0, abs_tol=0.0))
         mean_square = op.ReduceMean(x_square, [-1], keepdims=1, noop_with_empty_axes=0)
         mean_square_plus_epsilon = op.Add(mean_square, epsilon)
         rms = op.Sqrt(mean_square_plus_epsilon)
